@@ -15,14 +15,14 @@ DYN = True
 
 def run(ck, prop="C01"):
     nh, nbig = (90, 4) if ck.tier == "quick" else (2500, 150)
-    ck.cov["rule"] = ("history = closed genus-0 mesh (tetrahedron .. icosphere level 3, anisotropic, noisy, 0..100 sizes from the origin) with an edge-length band chosen around / inside / above / below its edge lengths, swap on or off, then 4-18 events: Gaussian displacement of all nodes (0.02-0.4 mean edge lengths), uniform and anisotropic scaling, normal refresh, refine_mesh passes, single split/merge/swap calls on a chosen edge, compaction; the full cell store is dumped after every event; non-trivial = dumps that follow an event which changed the connectivity")
+    ck.cov["rule"] = ("history = closed genus-0 mesh (tetrahedron .. icosphere level 3, one icosphere level 6 with 40962 nodes, anisotropic, noisy, 0..100 sizes from the origin) with an edge-length band chosen around / inside / above / below its edge lengths, swap on or off, then 4-18 events: Gaussian displacement of all nodes (0.02-0.4 mean edge lengths), uniform and anisotropic scaling, normal refresh, refine_mesh passes, single split/merge/swap calls on a chosen edge, compaction; the full cell store is dumped after every event; non-trivial = dumps that follow an event which changed the connectivity")
     ok = ck.proofs()
     if not ok:
         ck.report(dict(log=ck.proof_res["log"][-3000:]), unchecked="Properties_%s.vo" % prop, what="proof obligations of %s no longer check" % prop)
     impl = vlib.build_driver("refine")
     model = vlib.ocaml_model()
     rng = random.Random(ck.seed * 9176 + 1)
-    cases = [rc.gen_history(rng, DYN) for _ in range(nh)] + [rc.gen_history(rng, DYN, big=True) for _ in range(nbig)]
+    cases = [rc.gen_history(rng, DYN) for _ in range(nh)] + [rc.gen_history(rng, DYN, big=True) for _ in range(nbig)] + [rc.huge_case(rng) for _ in range(1 if ck.tier == "quick" else 6)]
     outs, crashes = vlib.run_lines_resilient([impl], [c["line"] for c in cases], timeout=1500)
     for bad, info in crashes[:2]:
         ck.report(dict(input=cases[bad]["line"], error=info), oracle="remeshing_returns_or_throws", key="refine:crash",
@@ -32,6 +32,8 @@ def run(ck, prop="C01"):
     for ci, (c, out) in enumerate(zip(cases, outs)):
         states = rc.parse_states(out)
         if not states:
+            if out is not None:
+                fails.append((ci, 0, "closed_genus0_starting_mesh_rejected (%s)" % out[:160]))
             continue
         fresh = False
         for k, st in enumerate(states):
@@ -106,8 +108,10 @@ def run(ck, prop="C01"):
         if key in seen:
             continue
         seen.add(key)
-        ck.report(dict(input=cases[ci]["line"], events=cases[ci]["events"][:k], failing_state_index=k), oracle=key, key="refine:" + key,
-                  what="after event %d (%s) of the history: %s" % (k, rc.parse_states(outs[ci])[k]["name"], f))
+        sts_ = rc.parse_states(outs[ci])
+        ck.report(dict(input=cases[ci]["line"] if len(cases[ci]["line"]) < 400000 else "icosphere level 6 (40962 nodes), events " + " ".join(cases[ci]["events"]),
+                       events=cases[ci]["events"][:k], failing_state_index=k), oracle=key, key="refine:" + key,
+                  what="after event %d (%s) of the history: %s" % (k, sts_[k]["name"] if sts_ else "INIT", f))
     if broken and not fails:
         ci, k, d = broken[0]
         ck.report(dict(input=cases[ci]["line"], failing_state_index=k, difference=d, n_disagreements=len(broken)),
